@@ -15,7 +15,8 @@ VARIABLES l
 tvars == <<vars, l>>
 
 ToSet(s) == {s[j] : j \in 1..Len(s)}
-RouteOf(e) == [file |-> e.route.file, env |-> e.route.env, prog |-> e.route.prog, hasFile |-> e.route.hasFile]
+RouteOf(e) == [file |-> e.route.file, env |-> e.route.env, prog |-> e.route.prog, hasFile |-> e.route.hasFile,
+               ival |-> e.route.ival, ivalBy |-> e.route.ivalBy, idfile |-> e.route.idfile]
 
 Fail(kind, e, name) == PrintT(<<"FAIL", kind, e.t, l, e.a, name>>)
 Chk(ok, kind, e, name) == IF ok THEN TRUE ELSE Fail(kind, e, name)
@@ -24,12 +25,13 @@ BindObs(e) ==
   /\ route' = RouteOf(e)
   /\ enabled' = e.st.enabled /\ collector' = e.st.collector /\ userData' = e.st.userData
   /\ sent' = e.st.sent /\ keys' = ToSet(e.st.keys) /\ hdrs' = ToSet(e.st.hdrs) /\ leaks' = ToSet(e.st.leaks)
+  /\ idsOK' = e.st.idsOK
 
 \* the interval timer is real: a slow machine may let more than one interval
 \* elapse inside one step, so the conformance level accepts "at least one more"
-AtLeastOne == sent' > sent /\ keys' = PayloadKeys /\ hdrs' = SentHeaders /\ leaks' = leaks
+AtLeastOne == sent' > sent /\ keys' = PayloadKeys /\ hdrs' = SentHeaders /\ leaks' = leaks /\ idsOK' = idsOK
 StartLike ==
-  /\ collector' = enabled /\ (IF enabled THEN AtLeastOne ELSE Silent)
+  /\ collector' = (enabled /\ route.idfile = "ok") /\ (IF collector' THEN AtLeastOne ELSE Silent)
   /\ UNCHANGED <<route, enabled, userData>>
 TickLike ==
   /\ (IF running THEN AtLeastOne ELSE Silent)
@@ -51,7 +53,7 @@ ImplOf(e) ==
 TraceInit ==
   /\ route = RouteOf(Trace[1])
   /\ phase = "init" /\ enabled = TRUE /\ collector = FALSE /\ running = FALSE
-  /\ userData = FALSE /\ sent = 0 /\ keys = {} /\ hdrs = {} /\ leaks = {}
+  /\ userData = FALSE /\ sent = 0 /\ keys = {} /\ hdrs = {} /\ leaks = {} /\ idsOK = TRUE
   /\ l = 2
 
 TraceNext ==
@@ -71,6 +73,8 @@ TraceNext ==
      /\ Chk(C19_Silent', "P", e, "C19_Silent")
      /\ Chk(C19_Whitelist', "P", e, "C19_Whitelist")
      /\ Chk(C19_NoLeak', "P", e, "C19_NoLeak")
+     /\ Chk(C19_InstanceId', "P", e, "C19_InstanceId")
+     /\ Chk(Feasible(route'), "C", e, "infeasible-route")
      /\ IF e.a = "Open"
         THEN Chk(sent' = 0, "I", e, "fresh")
         ELSE /\ Chk(route' = route /\ sent' >= sent, "P", e, "C19_Step")
